@@ -10,7 +10,7 @@ CONSTANTS Depth         \* 1: no sub-queries; 2: one level; 3: two levels
 VARIABLE fam
 vars == <<fam>>
 
-B == BOOLEAN
+BB == BOOLEAN
 StrV(s) == [t |-> "str", s |-> s, n |-> 0, l |-> <<>>]
 IntV(n) == [t |-> "int", s |-> "", n |-> n, l |-> <<>>]
 TV(t, n) == [t |-> t, s |-> "", n |-> n, l |-> <<>>]
@@ -25,14 +25,14 @@ Offs == {Off("B", 0, "B", 2), Off("B", 1, "E", 0), Off("E", -2, "E", -1)}
 
 Simple ==
     {CId("a1")}
-    \cup {CAnn("a1", q, r) : q \in B, r \in B} \cup {CAnnVar("x", q, r) : q \in B, r \in B}
-    \cup {CRes("r1", q) : q \in B} \cup {CResVar("x", q) : q \in B}
-    \cup {CSet("s1", q) : q \in B} \cup {CSetVar("x", q) : q \in B}
-    \cup {CKey("s1", "k1", q) : q \in B}
-    \cup {CKeyVal("s1", "k1", ov[1], ov[2], q) : ov \in OpVals, q \in B}
-    \cup {CDataVar("x", q) : q \in B} \cup {CKeyVar("x", q) : q \in B}
+    \cup {CAnn("a1", q, r) : q \in BB, r \in BB} \cup {CAnnVar("x", q, r) : q \in BB, r \in BB}
+    \cup {CRes("r1", q) : q \in BB} \cup {CResVar("x", q) : q \in BB}
+    \cup {CSet("s1", q) : q \in BB} \cup {CSetVar("x", q) : q \in BB}
+    \cup {CKey("s1", "k1", q) : q \in BB}
+    \cup {CKeyVal("s1", "k1", ov[1], ov[2], q) : ov \in OpVals, q \in BB}
+    \cup {CDataVar("x", q) : q \in BB} \cup {CKeyVar("x", q) : q \in BB}
     \cup {CValue(ov[1], ov[2]) : ov \in OpVals}
-    \cup {CText(<<11, 21>>, n) : n \in B} \cup {CText(<<12, 31, 14>>, FALSE), CTextVar("x")}
+    \cup {CText(<<11, 21>>, n) : n \in BB} \cup {CText(<<12, 31, 14>>, FALSE), CTextVar("x")}
     \cup {CRelation("x", kw) : kw \in RelKws}
     \cup {CLimit(b, e) : b \in {-2, 0, 3}, e \in {-2, 0, 3}}
     \cup {WithOff(CRes("r1", FALSE), o) : o \in Offs} \cup {WithOff(CAnn("a1", FALSE, FALSE), o) : o \in Offs}
